@@ -828,33 +828,61 @@ def check_fileapp_missing(T):
     _UNREADABLE.add(p)
     if os.geteuid() != 0:
         os.chmod(p, 0)
+    # the ways a name can fail os.stat: missing, running THROUGH a regular file (ENOTDIR), a component longer than NAME_MAX
+    # (ENAMETOOLONG; 255 is still a legal length), a dangling symlink (ENOENT), a symlink loop (ELOOP), a file name with a
+    # trailing separator (ENOTDIR); and, when not root, a file below a directory without search permission (EACCES)
+    with open(os.path.join(T, "fa.reg"), "wb") as f:
+        f.write(b"unreadable? no, regular")
+    for ln in ("fa.dangling", "fa.loop"):
+        if os.path.islink(os.path.join(T, ln)):
+            os.unlink(os.path.join(T, ln))
+    os.symlink(os.path.join(T, "fa.gone"), os.path.join(T, "fa.dangling"))
+    os.symlink(os.path.join(T, "fa.loop"), os.path.join(T, "fa.loop"))
+    targets = [("fa.nope", {404}), ("fa.dir", {403}), ("fa.unr", {403}),
+               ("fa.reg/child.txt", {403, 404}), ("fa.reg/", {403, 404}), ("fa.nope/deeper/x", {403, 404}),
+               ("x" * 255, {404}), ("x" * 256, {403, 404}), ("x" * 300 + ".txt", {403, 404}), ("fa.dir/" + "y" * 4000, {403, 404}),
+               ("fa.dangling", {403, 404}), ("fa.loop", {403, 404})]
+    nosearch = os.path.join(T, "fa.nosearch")
+    if os.geteuid() != 0:
+        os.makedirs(nosearch, exist_ok=True)
+        os.chmod(nosearch, 0o700)
+        with open(os.path.join(nosearch, "f.txt"), "wb") as f:
+            f.write(b"unreadable")
+        os.chmod(nosearch, 0)
+        targets.append(("fa.nosearch/f.txt", {403, 404}))
     out = []
     n = 0
     old = os.getcwd()
-    for name, want in (("fa.nope", 404), ("fa.dir", 403), ("fa.unr", 403)):
+    for name, wants in targets:
+        want = min(wants) if len(wants) == 1 else None
         full = os.path.join(T, name)
         makers = [("str", lambda: FileApp(full)), ("pathlib", lambda: FileApp(pathlib.Path(full))),
                   ("kw", lambda: FileApp(full, content_type="text/plain", charset="latin-1", cache_control="max-age=1")),
                   ("positional-kw", lambda: FileApp(filename=full))]
         for mk_name, mk in makers:
+            if mk_name == "pathlib" and name.endswith("/"):
+                continue                      # pathlib drops the trailing separator: that is the regular file itself
             for meth in ("GET", "HEAD", "POST", "PUT", "DELETE", "OPTIONS", "head", ""):
                 for rh in (None, "bytes=0-1", "bytes=-1"):
                     for wr in (None, [1, 1]):
                         n += 1
                         r = get_full(mk(), blank("/", meth, rh, wr))
-                        w = want if meth in ("GET", "HEAD") else 405
-                        if isinstance(r, fw.Err) or r[0] != w or b"unreadable" in r[2] or (meth == "HEAD" and r[2]):
-                            out.append(("fileapp:missing-or-unreadable", "%s %s (FileApp from %s) Range=%r wrapper=%r answered %r, expected %d"
-                                        % (meth or "(empty method)", name, mk_name, rh, wr, r if isinstance(r, fw.Err) else r[0], w)))
+                        w = wants if meth in ("GET", "HEAD") else {405}
+                        if isinstance(r, fw.Err) or r[0] not in w or b"unreadable" in r[2] or (meth == "HEAD" and r[2]):
+                            out.append(("fileapp:missing-or-unreadable", "%s %s (FileApp from %s) Range=%r wrapper=%r answered %r, expected %s"
+                                        % (meth or "(empty method)", name[:60], mk_name, rh, wr,
+                                           ("raises " + r.name) if isinstance(r, fw.Err) else r[0], sorted(w))))
         # a relative file name, resolved against the cwd at request time
         os.chdir(T)
         try:
             r = get_full(FileApp(name), blank("/", "HEAD"))
             n += 1
-            if isinstance(r, fw.Err) or r[0] != want:
-                out.append(("fileapp:missing-or-unreadable", "HEAD %s (relative name) answered %r, expected %d" % (name, r, want)))
+            if isinstance(r, fw.Err) or r[0] not in wants:
+                out.append(("fileapp:missing-or-unreadable", "HEAD %s (relative name) answered %r, expected %s" % (name[:60], r, sorted(wants))))
         finally:
             os.chdir(old)
+    if os.geteuid() != 0:
+        os.chmod(nosearch, 0o700)
     check_fileapp_missing.count = n
     return out
 
@@ -928,6 +956,15 @@ def check_outside_domain(ctx, T, mat):
             out.append(("fileapp:wrong-200", "FileApp(bytes filename) answered %r" % (r,)))
     except Exception as e:  # noqa
         obs["FileApp(bytes filename)"] = "constructor raises " + type(e).__name__
+    # -- a file name with an embedded NUL (the quantifier says NUL-free; through DirectoryApp such a request is a plain 404):
+    #    os.stat raises ValueError, which FileApp does not catch — recorded; it must not be served
+    for label, fn in (("NUL inside", os.path.join(T, "fa\x00b")), ("NUL after an existing name", p + "\x00")):
+        for meth in ("GET", "HEAD"):
+            n += 1
+            r = get_full(FileApp(fn), blank("/", meth))
+            obs["FileApp(<%s>) %s" % (label, meth)] = repr(r if isinstance(r, fw.Err) else r[0])
+            if not isinstance(r, fw.Err) and r[0] in (200, 206):
+                out.append(("fileapp:nul-name-served", "FileApp(<%s>) %s answered %d" % (label, meth, r[0])))
     try:
         DirectoryApp(os.fsencode(os.path.join(T, "base")))
         obs["DirectoryApp(bytes path)"] = "accepted"
@@ -1745,7 +1782,7 @@ def _run(ctx, T, mat):
     fdir = os.path.join(T, "fa")
     os.makedirs(fdir, exist_ok=True)
     for ci in range(ctx.scale(400, 3000)):
-        nk = rng.choice(["file"] * 8 + ["noent", "dir", "unreadable"])
+        nk = rng.choice(["file"] * 8 + ["noent", "dir", "unreadable", "through-file", "too-long", "dangling", "loop"])
         content = bytes(rng.randrange(256) for _ in range(rng.choice([0, 1, 2, 3, 4, 5, 7, 8, 9, 12, 16, 17])))
         meth = rng.choice(["GET"] * 5 + ["HEAD", "HEAD", "POST", "get", "PUT", ""])
         rh, rp = None, None
@@ -1766,15 +1803,30 @@ def _run(ctx, T, mat):
             wr = [rng.randrange(0, 6) for _ in range(rng.randrange(0, 5))]
             kind, bs = ("wr", wr), None
         p = os.path.join(fdir, "f%d" % (ci % 7))
-        if os.path.isdir(p):
+        if os.path.islink(p):
+            os.unlink(p)
+        elif os.path.isdir(p):
             os.rmdir(p)
         elif os.path.exists(p):
             os.unlink(p)
         _UNREADABLE.discard(p)
+        target = p
         if nk == "dir":
             os.mkdir(p)
             node = ("d",)
         elif nk == "noent":
+            node = None
+        elif nk == "through-file":               # os.stat: ENOTDIR
+            with open(p, "wb") as f:
+                f.write(content)
+            target, node = p + "/child.txt", None
+        elif nk == "too-long":                   # os.stat: ENAMETOOLONG
+            target, node = os.path.join(fdir, "y" * rng.choice([256, 300, 5000])), None
+        elif nk == "dangling":                   # os.stat: ENOENT through a symlink
+            os.symlink(p + ".gone", p)
+            node = None
+        elif nk == "loop":                       # os.stat: ELOOP
+            os.symlink(p, p)
             node = None
         else:
             with open(p, "wb") as f:
@@ -1782,7 +1834,7 @@ def _run(ctx, T, mat):
             node = ("f", content, nk != "unreadable")
             if nk == "unreadable":
                 _UNREADABLE.add(p)
-        app = st.FileApp(p)
+        app = st.FileApp(target)
         if caps:
             app._open = (lambda caps_: lambda fn, mode: ShortReader(_shim_open(fn, mode), caps_))(list(caps))
         res = get_full(app, blank("/x", meth, rh, wr), bs)
